@@ -3,6 +3,7 @@ package main
 import (
 	"fmt"
 	"go/token"
+	"sort"
 
 	"golang.org/x/tools/go/ssa"
 )
@@ -112,6 +113,31 @@ func checkC17(c *Ctx) {
 		if n == 0 {
 			r.Bad("C17.same-adjust", "command:"+op.name+":adjust-before-read", p.Pos(op.f.Pos()), op.name+" has no "+op.read+" call under selection.Active(): the operator protocol changed — table needs review")
 		}
+	}
+
+	// ---- same exits (K1): once in the active-selection branch, every path reads the selection
+	r.Rule("C17.same-exits", "K1", "in the active-selection branch of each operator every path reaches the selection read (no extra early exit in one sibling)", 3)
+	for _, op := range ops {
+		bf := blockFacts(op.f)
+		// entry of the branch: the block reached by the true edge of the Active() test
+		var entry *ssa.BasicBlock
+		for _, b := range op.f.Blocks {
+			if iff, ok := b.Instrs[len(b.Instrs)-1].(*ssa.If); ok && isCallNamed(iff.Cond, "(*core.Selection).Active") {
+				entry = b.Succs[0]
+			}
+		}
+		_ = bf
+		if entry == nil {
+			r.Unk("C17.same-exits", "command:"+op.name+":active-branch", p.Pos(op.f.Pos()), "the selection.Active() branch was not found")
+			continue
+		}
+		first := entry.Instrs[0]
+		isRead := func(in ssa.Instruction) bool { return isCallTo(in, op.read) }
+		miss := pathAvoiding(op.f, first, func(in ssa.Instruction) bool { return isReturn(in) && in.Block() != op.f.Recover }, isRead)
+		if isRead(first) {
+			miss = nil
+		}
+		r.Check(miss == nil, "C17.same-exits", "command:"+op.name+":active-branch", p.IPos(first), "every path reads the selection", op.name+" can leave its active-selection branch without acting on the selection (an extra early return): for some selections it does nothing while its sibling operators act")
 	}
 
 	// ---- same-range (K3)
@@ -306,6 +332,24 @@ func checkC17(c *Ctx) {
 	if AD := p.Func(fnAdjust); AD != nil {
 		r.Fn(fnAdjust)
 		cs := stringConstsCompared(AD, func(v ssa.Value) bool { return true })
+		// the table is a reviewed inventory: which last commands make the pending selection exclusive
+		want := map[string]bool{"vi-end-word": true, "vi-end-bigword": true, "vi-find-next-char": true, "vi-find-next-char-skip": true, "vi-find-prev-char": true, "vi-find-prev-char-skip": true, "vi-match": true,
+			"select-in-word": true, "select-a-word": true, "select-in-blank-word": true, "select-a-blank-word": true, "select-in-shell-word": true, "select-a-shell-word": true, "vi-select-inside": true, "vi-change-to": true}
+		var added, dropped []string
+		for a := range cs {
+			if !want[a] {
+				added = append(added, a)
+			}
+		}
+		for a := range want {
+			if _, ok := cs[a]; !ok {
+				dropped = append(dropped, a)
+			}
+		}
+		sort.Strings(added)
+		sort.Strings(dropped)
+		r.Check(len(added) == 0 && len(dropped) == 0, "C17.adjust-table", "adjust:table-inventory", p.Pos(AD.Pos()), fmt.Sprintf("%d reviewed entries", len(want)),
+			fmt.Sprintf("the inclusive/exclusive adjustment table changed (added %v, dropped %v): an operator named here loses its visual-line flag, a motion dropped here keeps its last character — needs review", added, dropped))
 		for a, in := range cs {
 			r.Check(reg.Cmds[a] != nil, "C17.adjust-table", "adjust:"+a, p.IPos(in), "registered", "adjustSelectionPending names \""+a+"\", which is not a registered command: that motion silently loses its adjustment")
 		}
